@@ -5,6 +5,7 @@
 #include <errno.h>
 #include <glob.h>
 #include <libgen.h>
+#include <signal.h>
 #include <stdarg.h>
 #include <stdbool.h>
 #include <stdint.h>
